@@ -23,10 +23,11 @@ class Undecided(Exception):
 
 class SV:
     """symbolic scalar / opaque value.  kind in {'int','real','bool','val'}"""
-    __slots__ = ('z', 'kind', 'app', 'ratio', 'tag', 'shape')
+    __slots__ = ('z', 'kind', 'app', 'ratio', 'tag', 'shape', 'frozen')
 
     def __init__(self, z, kind, app=None, ratio=None, tag=None, shape=None):
         self.shape = shape      # tuple of python ints / z3 Int exprs for ndarray-like opaque values
+        self.frozen = False     # inputs of the function under verification are frozen: in-place stores into them are not modelled
         self.z = z
         self.kind = kind
         self.app = app          # (fname, [engine args]) when created by an uninterpreted application
